@@ -31,11 +31,21 @@ def _cases(tier, rng):
             yield {'kind': 'mux', 'term': [['group_by', ['mod', 2], [['split', ['nan_if_mod', 3, 0], inner]]]], 'items': items, 'no_model': True}
     # predicate values compared by identity (instances of a class without __eq__) and equal values of different types
     # (1 == 1.0 == True): "differs by !=" — outside the model's value domain, judged by the oracle on the real code only
-    for pred in (['obj_of', 2], ['obj_of', 3], ['mixed_eq', 2], ['mixed_eq', 4]):
+    for pred in (['obj_of', 2], ['obj_of', 3], ['mixed_eq', 2], ['mixed_eq', 4], ['neint_of', 2], ['neint_of', 3]):
         for items in ([0, 1, 2, 3, 4, 5, 6, 7], [1, 1, 2, 3, 3, 8, 9, 4], [5], [0, 1, 4, 5, 2, 3, 6, 7, 7, 6], list(range(12))):
             for inner in ([['to_list']], [['count', True]]):
                 yield {'kind': 'mux', 'term': [['split', pred, inner]], 'items': items, 'no_model': True}
                 yield {'kind': 'mux', 'term': [['group_by', ['mod', 2], [['split', pred, inner]]]], 'items': items, 'no_model': True}
+    # a mux error (a raising map upstream) that reaches split and is ignored inside the segment pipeline and after split: the key
+    # goes on as if the failing item were absent — judged on the real code alone, against its own run without the failing items
+    for _ in range({'quick': 60, 'thorough': 500, 'search': 30}[tier]):
+        k, rr = rng.choice([(2, 0), (2, 1), (3, 0), (3, 2), (4, 1)])
+        pred = rng.choice([['floordiv', 3], ['mod', 2], ['floordiv', 2], ['big_of']])
+        inner = rng.choice([[['to_list']], [['count', True]], [['last']], [['sum', None, True]]])
+        sp = [['map', ['raise_if_mod', k, rr]], ['split', pred, [['ignore']] + inner], ['ignore']]
+        term = rng.choice([sp, sp, [['group_by', ['mod', 2], sp]]])
+        items = [rng.choice([0, 1, 2, 3, 4, 5, 6, 7, 8]) for _ in range(rng.choice([1, 2, 4, 6, 9]))]
+        yield {'kind': 'mux', 'term': term, 'items': items, 'no_model': True, 'absent': [k, rr]}
     n = {'quick': 1500, 'thorough': 10000, 'search': 600}[tier]
     for _ in range(n):
         p = rng.choice(PREDS)
@@ -79,7 +89,25 @@ def cases(tier, rng):
     return muxprop.with_preludes(_cases(tier, rng), pr)
 
 
+def absent_violation(case, r):
+    k, rr = case['absent']
+    if 'harness_exc' in r:
+        return 'real code raised: ' + r['harness_exc']
+    if r.get('raised') or muxprop.has_fatal(r['chunks']):
+        return ('%s over %s: the mux errors of the items with x %% %d == %d are ignored, yet the run ends with an error: %s'
+                % (muxprop.json.dumps(case['term'])[:200], case['items'], k, rr, str(r['chunks'])[:300]))
+    rest = [x for x in case['items'] if x % k != rr]
+    r2 = muxprop.real(dict(case, items=rest))
+    a, b = muxprop.outs(r['chunks']), muxprop.outs(r2['chunks'])
+    if muxprop.strict_ne(a, b):
+        return ('%s over %s emits %s; over the same items without the failing ones (%s) it emits %s — an ignored mux error must leave '
+                'the segmentation of the key as if the item were absent' % (muxprop.json.dumps(case['term'])[:200], case['items'], str(a)[:250], rest, str(b)[:250]))
+    return None
+
+
 def oracle(case, r):
+    if case.get('absent'):
+        return absent_violation(case, r)
     v = muxprop.prelude_violation(case, r)
     if v or case.get('share'):
         return v        # the shared-operator variant wraps the pipeline in a tee_map: judged against separately built operators only
